@@ -89,7 +89,7 @@ def run(ctx, factor):
                 "(iii) real `objdump -d -M att` output for random code bytes: model vs implementation and an independent "
                 "line classifier as oracle; (iv) the listings under /repo/tests/assembly; non-trivial = both sides "
                 "produced a stream")
-    n = ctx.budget(120, 3000) * factor
+    n = ctx.budget(120, 12000) * factor
     for _ in range(n):
         lines = gen_lines.listing(g, g.int(1, 12))
         r = ctx.driver.call({"op": "linespec", "lines": lines})["ok"]
@@ -101,7 +101,7 @@ def run(ctx, factor):
             compare_text(ctx, "\n".join(ls), "near-grammar(one character mutated)")
         if rep.violations and factor > 1:
             return
-    for _ in range(ctx.budget(6, 150) * factor):
+    for _ in range(ctx.budget(6, 400) * factor):
         objdump_case(ctx, g.int(40, 400))
     files = sorted(glob.glob(os.path.join(impl.REPO, "tests", "assembly", "*.s")))
     for f in files:
